@@ -85,6 +85,8 @@ def make (c):
         fam = None
         if c ['i'] % 12 == 5 and band == 'decide':
             fam = 'varray'          # parallel verticals at different places: the pattern is not a figure of revolution
+        if c ['i'] % 10 == 7 and band == 'decide':
+            fam = str (rng.choice (['vee', 'L', 'zig', 'T']))     # joined wires of different material (below)
         if band == 'junction':
             fam = str (rng.choice (['star3', 'star4', 'T']))
         spec = gen.fam_free (rng, fam = fam, seg_hi = seg_hi, seg_lo = seg_lo, equal_junction = (band != 'junction'))
@@ -129,6 +131,14 @@ def make (c):
                 for i, g in enumerate (spec ['geo']):
                     g ['tag'] = i + 1
                     loads.append (dict (k = 'skin', cond = float (10 ** rng.uniform (2.5, 7.8)), tag = i + 1))
+    if c ['i'] % 10 == 7 and band == 'decide' and env == 'free' and spec.get ('fam') in ('vee', 'L', 'zig', 'T') and len (spec ['geo']) > 1:
+        # a section of resistance wire joined to copper: the loss of the junction pulse is that of its two halves, each of
+        # the material of the wire it lies on (a sizeable part of the balance)
+        loads = []
+        lossy = int (rng.integers (0, len (spec ['geo'])))
+        for i, g in enumerate (spec ['geo']):
+            g ['tag'] = i + 1
+            loads.append (dict (k = 'skin', cond = float (10 ** rng.uniform (2.3, 3.3)) if i == lossy else 5.8e7, tag = i + 1))
     if spec.get ('media') is not None and rng.random () < 0.35:
         # resistive load in a feed location (for ground families the first feed is the grounded base)
         fd = [x for x in spec.get ('feeds') or [] if abs (x ['at'][2]) < 1e-12]
